@@ -155,15 +155,10 @@ def lookups_ok(r, T):
     """__contains__/__getitem__/get/keys/len agree with the reference tree."""
     for p in PROBES:
         ap = p if p.startswith("/") else "/" + p
-        # a lookup running through a dataset raises ValueError in IH5 (h5py: False/KeyError)
-        through_ds = any(T.get(ap[:i], ("", 0, 0))[0] == "d" for i in range(1, len(ap)) if ap[i] == "/")
+        # (a lookup running through a dataset: h5py answers False / KeyError / default, so must IH5)
         try:
             c = p in r
         except ValueError:
-            if not through_ds:
-                return False
-            continue
-        if through_ds:
             return False
         if c != (ap in T):
             return False
@@ -187,7 +182,7 @@ def lookups_ok(r, T):
             try:
                 r[p]
                 return False
-            except KeyError:
+            except (KeyError, ValueError):  # (below a dataset IH5 raises ValueError, h5py KeyError: both fail)
                 pass
     top = sorted(q[1:] for q in T if q != "/" and "/" not in q[1:])
     names = []
